@@ -65,7 +65,12 @@ def literal_text(t):
 def run(ctx):
     fx = ctx.facts("A")
     w = W.World(fx, ["ruma_common", "ruma_identifiers_validation"])
-    dex = D.Dex(w.lookup, adt_discr=w.adt_discr, effects=lambda n: True, unroll=1)
+    MU = "ruma_common::identifiers::matrix_uri::"
+    def helper(n):
+        # private free functions of the module (encode/trim/type-word helpers) are inlined
+        rest = n[len(MU):] if n.startswith(MU) else None
+        return rest is not None and "::" not in rest and "<" not in rest and "{" not in rest
+    dex = D.Dex(w.lookup, adt_discr=w.adt_discr, effects=lambda n: True, unroll=1, inline=helper)
 
     ctx.rule("C11.sites", "every panic/bounds site of the matrix_uri module is discharged or reviewed (no indexing of possibly-empty segments)")
     PC.site_rule(ctx, w, ["ruma_common"], "C11.sites", fn_filter=lambda fn: "identifiers::matrix_uri" in fn["path"], floor=5)
@@ -160,23 +165,38 @@ def run(ctx):
         ctx.check(bool(good), "C11.agreement", f"C11.agreement:type-word:{tag}", w.where(f), ok_msg=", ".join(detail),
                   bad_msg=f"written type words {words} for {idtypes} are read back as {detail}")
     # query keys
+    def with_helpers(fn):
+        """the function and the module's private helpers it (transitively) calls"""
+        seen, work = {}, [fn]
+        while work:
+            g = work.pop()
+            if g["path"] in seen or "body" not in g:
+                continue
+            seen[g["path"]] = g
+            for body in M.all_bodies(g):
+                for _, c in M.calls(body):
+                    n = M.callee_name(c)
+                    if helper(n) and w.lookup(n) is not None:
+                        work.append(w.lookup(n))
+        return list(seen.values())
+
+    def str_consts(fns):
+        out = set()
+        for g in fns:
+            for body in M.all_bodies(g):
+                for _, c in M.calls(body):
+                    for a in c["args"]:
+                        if a.get("k") == "const" and isinstance(a.get("v"), str):
+                            out.add(a["v"])
+                for b in body["blocks"]:
+                    for st in b["s"]:
+                        if st[0] == "=" and st[2][0] == "use" and st[2][1].get("k") == "const" and isinstance(st[2][1].get("v"), str):
+                            out.add(st[2][1]["v"])
+        return out
     fd = w.fn(f"<{MU}MatrixUri as core::fmt::Display>::fmt")
-    written = {c["args"][1]["v"] for _, c in M.calls(fd["body"]) if M.callee_name(c).endswith("write_str") and c["args"][1].get("k") == "const" and isinstance(c["args"][1].get("v"), str)}
-    for b in fd["body"]["blocks"]:
-        for st in b["s"]:
-            if st[0] == "=" and st[2][0] == "use" and st[2][1].get("k") == "const" and isinstance(st[2][1].get("v"), str):
-                written.add(st[2][1]["v"])
+    written = str_consts(with_helpers(fd))
     fp = w.fn(MU + "MatrixUri::parse")
-    read = set()
-    for body in M.all_bodies(fp):
-        for _, c in M.calls(body):
-            for a in c["args"]:
-                if a.get("k") == "const" and isinstance(a.get("v"), str):
-                    read.add(a["v"])
-        for b in body["blocks"]:
-            for st in b["s"]:
-                if st[0] == "=" and st[2][0] == "use" and st[2][1].get("k") == "const" and isinstance(st[2][1].get("v"), str):
-                    read.add(st[2][1]["v"])
+    read = str_consts(with_helpers(fp))
     keys_w = {re.sub(r"[?&=]", "", x) for x in written if x.endswith("=")}
     ctx.check(keys_w == {"via", "action"} and keys_w <= read, "C11.agreement", "C11.agreement:query-keys", w.where(fd),
               bad_msg=f"Display writes query keys {sorted(keys_w)}, parse reads {sorted(read)}")
@@ -213,7 +233,7 @@ def run(ctx):
     ctx.rule("C11.decode-order", "the URI parsers split on their delimiters ('/', '?', '#', '&', '=') only in text that has not been percent-decoded yet, "
                                  "and decode each part afterwards: Display writes an identifier's own '/', '?', '#' as %XX (C11.encode_set), so decoding "
                                  "first would turn them into separators")
-    dexo = D.Dex(w.lookup, adt_discr=w.adt_discr, effects=lambda n: True)
+    dexo = D.Dex(w.lookup, adt_discr=w.adt_discr, effects=lambda n: True, inline=helper)
     SPLITTERS = ("split_once", "rsplit_once", "split", "rsplit", "splitn", "rsplitn", "split_terminator", "matches", "find", "rfind", "strip_prefix", "strip_suffix")
     n_split = 0
     for name in ["MatrixId::parse_with_sigil", "MatrixId::parse_with_type", "MatrixToUri::parse", "MatrixUri::parse"]:
